@@ -359,7 +359,7 @@ func (g *engine) static() {
 
 func scenarios(o *hx.Opts) []Scenario {
 	r := hx.NewRand(o.Seed)
-	names := []string{"basic", "compact", "restore", "follow", "behind", "reopen", "restorev3", "pinned", "ckptbusy", "restoreside", "republish"}
+	names := []string{"basic", "compact", "restore", "follow", "behind", "reopen", "restorev3", "pinned", "ckptbusy", "restoreside", "republish", "chunked"}
 	var out []Scenario
 	reps := 1
 	if o.Tier == "thorough" {
@@ -379,7 +379,7 @@ func main() {
 	}
 	o := hx.ParseFlags("C11")
 	res := hx.NewResult(o, "c11: strace'd litestream scenarios judged by Lean flushOK + Go rule oracle; static publish protocols")
-	res.Rule = "scenarios {basic, compact(+snapshot, retention), restore, follow(+txid sidecar), behind (baseline fetch, F8), reopen, restorev3 (legacy layout), pinned (checkpoints that cannot restart the WAL because of an application reader: explicit PASSIVE/FULL/RESTART/TRUNCATE and the threshold PASSIVE inside Sync), ckptbusy (checkpoints under concurrent commits), restoreside (plain and follow-mode restore x {no sidecar, stale older sidecar, stale sidecar naming exactly the final TXID, stale -txid.tmp}; a follow-mode restore acknowledges when follow() opens the published output O_RDWR and again when Restore returns), republish (WriteLTXFile onto names that already exist in the file replica: upload retry of an L0 file, Snapshot twice at the same position, snapshot by a restarted idle process, repeated compaction)} x seeded sizes, each run once under strace -f -y; the full system-call trace restricted to the meta/replica/output trees is one case (non-trivial = at least one event; distinct = canonical event line); each regenerated static protocol is one case; crash points around every rename/unlink/ack are replayed in the model"
+	res.Rule = "scenarios {basic, compact(+snapshot, retention), restore, follow(+txid sidecar), behind (baseline fetch, F8), reopen, restorev3 (legacy layout), pinned (checkpoints that cannot restart the WAL because of an application reader: explicit PASSIVE/FULL/RESTART/TRUNCATE and the threshold PASSIVE inside Sync), ckptbusy (checkpoints under concurrent commits), restoreside (plain and follow-mode restore x {no sidecar, stale older sidecar, stale sidecar naming exactly the final TXID, stale -txid.tmp}; a follow-mode restore acknowledges when follow() opens the published output O_RDWR and again when Restore returns), republish (WriteLTXFile onto names that already exist in the file replica: upload retry of an L0 file, Snapshot twice at the same position, snapshot by a restarted idle process, repeated compaction), chunked (WAL backlog larger than MaxSyncWALBytes in {one frame, 16 KiB, 64 KiB}: bounded sync chunks, also with a checkpoint inside the same sync); a 16/64 KiB sync budget is mixed into the other scenarios by seed} x seeded sizes, each run once under strace -f -y; the full system-call trace restricted to the meta/replica/output trees is one case (non-trivial = at least one event; distinct = canonical event line); each regenerated static protocol is one case; crash points around every rename/unlink/ack are replayed in the model"
 	drv, err := hx.StartDriver(o.Driver)
 	if err != nil {
 		hx.Fatal(err)
